@@ -102,10 +102,13 @@ func run(flags userFlags) error {
 		return nil
 	}
 
-	// create the file
-	err = os.MkdirAll(filepath.Dir(flags.outFile), 0o750)
-	if err != nil {
-		return err
+	// create the file; the directory part is taken as written (filepath.Dir
+	// would clean it lexically, which names another directory when a symbolic
+	// link is followed by "..")
+	if dir, _ := filepath.Split(flags.outFile); dir != "" {
+		if err = os.MkdirAll(dir, 0o750); err != nil {
+			return err
+		}
 	}
 
 	return os.WriteFile(flags.outFile, buf.Bytes(), 0o600)
